@@ -60,6 +60,11 @@ type Engine struct {
 }
 
 func NewEngine(w *World) *Engine {
+	// the register (and what stands for it: alias parameters, snapshot
+	// helpers) is part of how the engine reads memory: resolve it first
+	if _, done := regGlobalMemo[w]; !done && w.Root != nil {
+		registerGlobal(w)
+	}
 	return &Engine{w: w, MaxDepth: 8, MaxSteps: 400000}
 }
 
@@ -813,7 +818,17 @@ func (e *Engine) exec(st *State, in ssa.Instruction) ([]*State, []Path) {
 		m := e.eval(st, x.Map)
 		k := e.eval(st, x.Key)
 		v := e.eval(st, x.Value)
-		st.events = append(st.events, Event{Kind: "store", Loc: "M:" + m.name() + "[" + k.name() + "]", Val: v, Instr: x, Fn: x.Parent(), Depth: len(e.stack) - 1})
+		ev := Event{Kind: "store", Loc: "M:" + m.name() + "[" + k.name() + "]", Val: v, Instr: x, Fn: x.Parent(), Depth: len(e.stack) - 1}
+		if v.Kind == KAgg {
+			ev.Parts = map[string]AV{}
+			pre := childPrefix(v.Loc)
+			for loc, pv := range st.mem {
+				if strings.HasPrefix(loc, pre) {
+					ev.Parts[loc[len(pre):]] = pv
+				}
+			}
+		}
+		st.events = append(st.events, ev)
 	case *ssa.Range:
 		st.env[x] = AV{Kind: KSym, Sym: fmt.Sprintf("range#%s.%s@%s", x.Parent().Name(), x.Name(), st.inst())}
 	case *ssa.Next:
@@ -1520,6 +1535,21 @@ func (e *Engine) call(st *State, x *ssa.Call) ([]*State, []Path) {
 		}
 	}
 
+	// a snapshot of the register is the register, as far as reading goes
+	if callee != nil {
+		for g, fns := range regCopyMemo {
+			if fns[callee] {
+				if fi, wrapped := regFieldMemo[g]; wrapped {
+					fname := g.Type().(*types.Pointer).Elem().Underlying().(*types.Struct).Field(fi).Name()
+					st.env[x] = e.load(st, locJoin(ensureSel("G:"+globalName(g)), "."+fname), x.Type())
+				} else {
+					st.env[x] = e.load(st, "G:"+globalName(g), x.Type())
+				}
+				return []*State{st}, nil
+			}
+		}
+	}
+
 	// unwrap synthetic wrappers (e.g. (*T).M wrapper around (T).M)
 	inlinable := callee != nil && callee.Blocks != nil && e.w.Inlinable(callee) && !e.NoInline[callee] &&
 		len(e.stack) < e.MaxDepth && !e.onStack(callee) && len(callee.FreeVars) == len(binds)
@@ -1533,6 +1563,19 @@ func (e *Engine) call(st *State, x *ssa.Call) ([]*State, []Path) {
 		// fall through: treat as opaque
 	}
 
+	// once.Do(f): f runs here or has run before; for what the call can do, it runs
+	if name == "(*sync.Once).Do" && len(args) == 2 && args[1].Kind == KFunc && args[1].Fn != nil && args[1].Fn.Blocks != nil &&
+		e.w.Inlinable(args[1].Fn) && len(args[1].Fn.FreeVars) == len(args[1].Elems) && len(e.stack) < e.MaxDepth && !e.onStack(args[1].Fn) {
+		if next, done, ok := e.inlineCall(st, x, nil, args[1].Fn, args[1].Elems, nil); ok {
+			for _, ns := range next {
+				ns.env[x] = AV{Kind: KTuple}
+			}
+			return next, done
+		}
+		if e.Err != nil {
+			return nil, nil
+		}
+	}
 	e.boundMethod = method
 	res := e.opaqueCall(st, x, name, callee, recv, args)
 	e.boundMethod = ""
@@ -1609,6 +1652,8 @@ func (e *Engine) deferCall(st *State, x *ssa.Defer) {
 	case c.IsInvoke():
 		st.unsupported = "deferred interface method call outside the fragment"
 		return
+	case c.StaticCallee() != nil && isLockOp(c.StaticCallee().String()):
+		return // releasing a lock changes nothing the engine models
 	case c.StaticCallee() != nil:
 		rec.callee = c.StaticCallee()
 		if mc, ok := c.Value.(*ssa.MakeClosure); ok {
@@ -2536,6 +2581,8 @@ func derivedExact(st *State, term string) bool {
 			return cur.max()/(m+1) <= 4096
 		case (m+low)&(m+low-1) == 0 && cur.max() < m+low:
 			return true
+		case ((m/low)+1)&(m/low) == 0:
+			return (cur.max()/(m+low)+1)*((m+low)/low) <= 1<<16
 		}
 	}
 	return false
@@ -2608,6 +2655,21 @@ func refineMasked(st *State, x string, m int64, set iset) {
 			last := hi / low * low
 			if hi >= lo && last >= first {
 				pre = append(pre, iv{first, last + low - 1})
+			}
+		}
+	case ((m/low)+1)&(m/low) == 0:
+		// contiguous mid-bit mask 2^j − 2^k: in every period of 2^j, the
+		// blocks of 2^k whose index (times 2^k) lies in the set
+		period := m + low
+		nq := period / low
+		if (cur.max()/period+1)*nq > 1<<16 {
+			return
+		}
+		for base := int64(0); base <= cur.max(); base += period {
+			for q := int64(0); q < nq; q++ {
+				if set.contains(q * low) {
+					pre = append(pre, iv{base + q*low, base + q*low + low - 1})
+				}
 			}
 		}
 	default:
